@@ -75,7 +75,8 @@ def _rand_system(W, strided=True, zero_dim_flow=False):
 
     def vals(dl):
         shape = tuple(len(d.items) for d in dl)
-        a = np.array([rng.randint(-50, 50) + rng.choice([0.0, 0.5, 0.125]) for _ in range(int(np.prod(shape)) or 1)], dtype=float).reshape(shape)
+        # (full-precision doubles among them: a text form must carry all their digits)
+        a = np.array([rng.randint(-50, 50) + rng.choice([0.0, 0.5, 0.125, rng.random(), 1.0 / 3.0, 0.1 + 0.2]) for _ in range(int(np.prod(shape)) or 1)], dtype=float).reshape(shape)
         if strided and len(shape) >= 2 and rng.random() < 0.7:
             perm = list(range(len(shape)))
             rng.shuffle(perm)
@@ -120,7 +121,7 @@ def u_export_bounded(W, sk):
 
     def same_back(name, df, arr):
         back = W.call(lambda: FlodymArray.from_df(dims=arr.dims, df=df))
-        W.prove(f"{name}.reads_back_identical", back.kind == "return" and back.value.values.shape == arr.values.shape and bool(np.allclose(back.value.values, arr.values, rtol=0, atol=1e-12)), detail=repr(back) if back.kind != "return" else "values differ")
+        W.prove(f"{name}.reads_back_identical", back.kind == "return" and back.value.values.shape == arr.values.shape and bool(np.array_equal(back.value.values, arr.values)), detail=repr(back) if back.kind != "return" else f"values differ by up to {float(np.max(np.abs(back.value.values - arr.values))):.3g}")
 
     d = tempfile.mkdtemp(prefix="fvc_exp_")
     try:
@@ -276,7 +277,7 @@ class Recorder:
 def sk_sankey(tier):
     out = []
     for g in ("chain_mixed_dims", "parallel_and_opposing", "with_stock", "self_loop", "no_stocks_scalar_flows", "inner_ring_mixed_dims"):
-        for opt in ("default", "exclude_flow", "exclude_process", "slice_item", "slice_item_by_name", "split_by_dim"):
+        for opt in ("default", "exclude_nothing", "exclude_flow", "exclude_process", "slice_item", "slice_item_by_name", "split_by_dim"):
             out.append({"graph": g, "opt": opt, "table": "as_listed"})
     # settings that must be refused
     for opt in ("refuse_unknown_process", "refuse_unknown_flow", "refuse_slice_unknown_dim", "refuse_no_default_colour", "refuse_colour_dim_not_in_flow", "refuse_colour_list_too_short"):
@@ -321,7 +322,11 @@ def u_sankey(W, sk):
     excluded_f = []
     slice_dict = {}
     split = None
-    if opt == "exclude_flow" and S.flow_list:
+    if opt == "exclude_nothing":
+        # an explicitly empty exclusion list: the system environment and the flows touching it are drawn, too
+        excluded_p = []
+        kw["exclude_processes"] = []
+    elif opt == "exclude_flow" and S.flow_list:
         excluded_f = [S.flow_list[-1][0].name]
         kw["exclude_flows"] = excluded_f
     elif opt == "exclude_process":
